@@ -247,6 +247,7 @@ def run(ck, fb):
     r14g(ck, fb)
     r14h(ck, fb)
     r14j(ck, fb)
+    r14k(ck, fb)
     ck.rule('R14e', 'ownership use: NamingActor::update_instance computes at_process_range = current_range.is_range(get_hash_value(key)) and '
                     'clears from_cluster / client_id only when in range and not gRPC')
     nu = ck.body(NA + 'update_instance', 'R14e')
@@ -368,3 +369,22 @@ def r14j(ck, fb, R='R14j'):
                    'instance is held - supervised, announced - by a node that does not own the service' % (fn, bad[0][1] if bad else ''),
                    'local application only in the Local arm')
     ck.floor(R, 'local applications of a routed write', n, 2)
+
+
+def r14k(ck, fb, R='R14k'):
+    ck.rule(R, '"each service key is owned by exactly one live node": a node that has not been told its range yet owns nothing that reaches it through a '
+               'peer. In NamingActor::update_instance, with current_range == None, the assignment that makes an instance this node\'s own '
+               '(from_cluster = 0) is unreachable. A node that has just (re)started receives forwarded instances before its node manager has pushed '
+               'the first range: "no range = I manage everything" makes it keep instances of services another live node owns - two owners, and the one '
+               'no heartbeat is routed to expires the instance')
+    from rules.c13 import own_reset_walk
+    for fs in (False, True):
+        w = own_reset_walk(fb, {'range': 'None', 'from_grpc': False, 'from_sync': fs})
+        if w is None:
+            ck.body(NA + 'update_instance', R)
+            return
+        b, resets, r, esc = w
+        hit = sorted(resets & r)
+        ck.require(not hit, R, 'update_instance:no-range-owns-nothing:from_sync=%s' % fs, b.where(hit[0]) if hit else b.where(),
+                   'without an assigned range update_instance can make an instance this node\'s own (from_sync=%s): a forwarded HTTP instance of a service '
+                   'owned by another live node is kept as local - both nodes consider themselves the owner' % fs, 'unreachable')
